@@ -1,0 +1,44 @@
+//go:build verif
+
+package cache
+
+import (
+	"os"
+	"strconv"
+	"syscall"
+)
+
+// VerifPoint, when set, is called at every crash point of the cache protocol with the name of
+// the point, the path of the cache file and the bytes about to be (or just) written.
+// Only compiled with -tags verif; used by the verification harness in /verif.
+var VerifPoint func(point, path string, contents []byte)
+
+var verifCount int
+
+// verifPoint marks a point at which a crash of the process is to be considered.
+// With SPOK_VERIF_CRASH=<k> in the environment the process kills itself at the k-th point
+// (1-based); with SPOK_VERIF_TEAR=<n> as well, and the point being "dump:before", the first
+// n bytes of the new contents are written over the cache file first (a torn write).
+func verifPoint(point, path string, contents []byte) {
+	if VerifPoint != nil {
+		VerifPoint(point, path, contents)
+	}
+	k, err := strconv.Atoi(os.Getenv("SPOK_VERIF_CRASH"))
+	if err != nil || k <= 0 {
+		return
+	}
+	verifCount++
+	if verifCount != k {
+		return
+	}
+	if point == "dump:before" {
+		if n, err := strconv.Atoi(os.Getenv("SPOK_VERIF_TEAR")); err == nil && n >= 0 {
+			if n > len(contents) {
+				n = len(contents)
+			}
+			_ = os.WriteFile(path, contents[:n], filePerms)
+		}
+	}
+	_ = syscall.Kill(os.Getpid(), syscall.SIGKILL)
+	select {}
+}
